@@ -294,6 +294,22 @@ fn special_layouts(o: &Opts, out: &mut Out, sampled: &mut bool) {
     announce_and_apply(out, &proj, &args, &format!("adjacent-edits lang={lang}"), &|rid: &str| rid != "stmt", sampled);
     out.count("layout:adjacent-edits");
   }
+  // ---- a chain of partially overlapping edits: the replaced range of each finding reaches into its neighbours
+  //      (expansion on both sides), so B overlaps the accepted A and is dropped, C overlaps only the dropped B and is
+  //      written, D overlaps C ...
+  for (li, (lang, ext)) in [("JavaScript", "js"), ("TypeScript", "ts")].iter().enumerate() {
+    let base = fresh_dir(&o.out, &format!("chain_{li}"));
+    let proj = base.join("t");
+    std::fs::create_dir_all(&proj).unwrap();
+    std::fs::write(proj.join(format!("chain.{ext}")), "let l = [x, legacy_a, legacy_b, legacy_c, y];\nlet m = [p, legacy_d, legacy_e, legacy_f, legacy_g, legacy_h, q];\nlet n = [legacy_i, legacy_j];\n").unwrap();
+    let yamls = [format!("id: legacy\nlanguage: {lang}\nmessage: m\nrule:\n  kind: identifier\n  regex: ^legacy_\n  inside: {{kind: array}}\nfix:\n  template: \"\"\n  expandStart: {{regex: ','}}\n  expandEnd: {{regex: ','}}\n")];
+    let rp = base.join("rules.yml");
+    std::fs::write(&rp, yamls.join("---\n")).unwrap();
+    let rabs = std::fs::canonicalize(&rp).unwrap();
+    let args: Vec<String> = vec!["scan".into(), "-r".into(), rabs.to_string_lossy().to_string()];
+    announce_and_apply(out, &proj, &args, &format!("chain-of-overlapping-edits lang={lang}"), &|_rid: &str| true, sampled);
+    out.count("layout:chain-of-overlapping-edits");
+  }
   // ---- project mode with suppression comments on fixable findings (the unused-suppression rule has a fix too)
   for (li, (lang, ext, cmt)) in [("JavaScript", "js", "//"), ("TypeScript", "ts", "//"), ("Python", "py", "#")].iter().enumerate() {
     let base = fresh_dir(&o.out, &format!("proj_{li}"));
